@@ -1,10 +1,10 @@
 CONSTANTS
-  MaxFrames = 3
+  MaxFrames = 2
   Lens = {3, 5}
   H = 3
   Preface = 0
   Peek = 0
-  MaxTimeouts = 0
+  MaxTimeouts = 2
   Defects = {}
 SPECIFICATION Spec
 INVARIANTS InOrderOnce NoEarly Prompt Consumed PrefaceOnce NoError NoByteLost SameForEveryCut EmitCase
